@@ -17,7 +17,7 @@ var c20Schemes = []string{"", "http://", "https://", "tg://", "ftp://", "//"}
 var c20Hosts = append(append([]string{}, link.Reserved...),
 	"t.me.evil.com", "xt.me", "T.ME", "tele\u017fco.pe", "telegram.\u017fe", "teleſco.pe", "t.me\u212a", "Telegram.Me", "tеlegram.me" /* cyrillic e */, "example.com", "t.m", "me", "telegram.org", "")
 var c20Ports = []string{"", ":443", ":80", ":8443", ":1", ":65535"}
-var c20Suffix = []string{"", "?a=b", "#frag", "?start=1#frag"}
+var c20Suffix = []string{"", "?a=b", "#frag", "?start=1#frag", "?domain=evilname", "?invite=eviltoken", "?Domain=evil1&domain=evil2&username=evil3", "?a=b&invite=x#domain=y"}
 
 var c20Atoms = []link.Seg{
 	{Raw: "BotFather", Dec: "BotFather"}, {Raw: "user_1", Dec: "user_1"}, {Raw: "joinchat", Dec: "joinchat"},
@@ -160,7 +160,7 @@ func c20(c *wk.Ctx) {
 	}
 	c.Count("grid", int64(idx))
 	// 2. random structured links with random usernames/tokens
-	n := c.Pick(20000, 600000)
+	n := c.Pick(20000, 3000000)
 	for k := 0; k < n; k++ {
 		if c.Mine(idx) {
 			r := c.Rand(idx)
@@ -235,7 +235,7 @@ func c20(c *wk.Ctx) {
 		idx++
 	}
 	// 3. random strings (no-panic + determinism only)
-	n = c.Pick(10000, 400000)
+	n = c.Pick(10000, 2000000)
 	alphabet := []string{"t.me", "telegram.me", "/", "//", ":", "?", "#", "%", "%2F", "http", "https", "tg", "@", "[", "]", "joinchat", "a", "Z", "é", " ", "\x00", ".", "443", "&", "=", "\\", "{", "}", "\n"}
 	for k := 0; k < n; k++ {
 		if c.Mine(idx) {
